@@ -175,6 +175,17 @@ def build_props(ctx: Ctx, props_files, timeout=1500, extra=()):
             if m:
                 axioms.add(m.group(1))
     ctx.axioms = {"closed_theorems": closed, "theorems_with_axioms": len(ax_blocks), "axioms": sorted(axioms)}
+    if ctx.tier == "thorough" and ctx.coq_ok:
+        mods = ["SymfcP." + os.path.basename(p)[:-2] for p in props_files]
+        rc2, out2 = sh(["timeout", "1500", "coqchk", "-silent", "-o"] + COQFLAGS + mods, cwd=COQ, timeout=1600)
+        m = re.search(r"\* Axioms:(.*?)\n\s*\n\* Constants/Inductives relying on type-in-type:(.*?)\n\s*\n\* Constants/Inductives relying on unsafe \(co\)fixpoints:(.*?)\n\s*\n\* Inductives whose positivity is assumed:(.*?)\n", out2 + "\n\n", flags=re.S)
+        if rc2 != 0 or not m:
+            ctx.fail("coq", f"{ctx.pid}/coq/coqchk", "coqchk did not accept the compiled closure: " + out2[-600:])
+        else:
+            ax = [l.strip() for l in m.group(1).splitlines() if l.strip() and l.strip() != "<none>"]
+            ctx.axioms["coqchk"] = {"axioms": ax, "type_in_type": m.group(2).strip(), "unsafe_fixpoints": m.group(3).strip(), "assumed_positivity": m.group(4).strip()}
+            if any(x != "<none>" for x in (m.group(2).strip(), m.group(3).strip(), m.group(4).strip())):
+                ctx.fail("coq", f"{ctx.pid}/coq/coqchk", "coqchk reports disabled kernel checks: " + out2[-400:])
     return out
 
 
